@@ -13,7 +13,7 @@ from kverif.common import Deadline, case_rng, stable_hash, tier_value
 ID = 'C13'
 LEVEL = 'exploration'
 RULE = ('worlds {1,2,3,4,6,8}, every divisor k, both methods, pre-divided eigenvalues on/off, symmetric on/off, colocate on/off, bucketed or not, hook/no-hook, '
-        '1-8 steps with constant or callable (F,I); histories are construction + steps; non-trivial: world>1; distinct = (W,k,method,flags,(F,I))')
+        '1-8 steps with constant or callable (F,I); histories are construction + steps, 30% with a checkpoint restored into a fresh preconditioner between two steps; non-trivial: world>1; distinct = (W,k,method,flags,(F,I))')
 ASSUMPTIONS = ['tensors held by a layer are those reachable from vars(layer) (futures resolved, module and communicator excluded)',
                'partition_grad_receivers / is_grad_worker of the rank views define the row / column groups', 'simdist stands in for the backend']
 REQUIRED = ['held_checks', 'step_accounting_checks', 'world_of_one_runs']
@@ -37,12 +37,17 @@ def run_case(rng, res, idx, tier):
     cfg['acc'] = rng.choice([1, 1, 2])
     cfg['colocate'] = True if (cfg['method'] == 'eigen' and cfg['prediv']) else rng.random() < 0.5
     nsteps = rng.randint(1, 8)
+    history = [('train',)] * nsteps
+    # some histories restore a checkpoint into a fresh preconditioner between two steps (construction + load + >=1 step)
+    load_at = rng.randint(1, nsteps - 1) if nsteps >= 2 and rng.random() < 0.3 else None
+    if load_at is not None:
+        history = history[:load_at] + [('load', True)] + history[load_at:]
     spec = dict(model_seed=rng.randrange(10 ** 6), data_seed=rng.randrange(10 ** 6), batch=rng.randint(1, 3), cfg=cfg,
-                history=[('train',)] * nsteps, record=['held'])
+                history=history, record=['held'])
     # the memory query (which flushes and waits) happens at the last boundary and at a random subset of the others
     spec['held_steps'] = sorted({nsteps - 1} | {t for t in range(nsteps) if rng.random() < 0.4})
     policy = simdist.POLICIES[idx % len(simdist.POLICIES)]
-    case = dict(idx=idx, W=W, k=k, cfg=cfg, steps=nsteps, policy=policy)
+    case = dict(idx=idx, W=W, k=k, cfg=cfg, steps=nsteps, policy=policy, load_at=load_at)
     run = scenario.run(spec, W, seed=rng.randrange(10 ** 6), policy=policy, stress=(idx % 5 == 0), deliver_prob=rng.choice([0.05, 0.3, 0.6, 1.0]))
     if run.inconclusive:
         res.inconclusive.append('simulator watchdog fired')
@@ -96,6 +101,12 @@ def run_case(rng, res, idx, tier):
     ev_by = {}
     for e in run.trace:
         if e['kind'] == 'new_group' or e['harness'] or e['phase'] is None:
+            continue
+        if e['phase'][0] == 'load':
+            # communication of the restore itself is not part of any step; it must stay inside gradient-worker groups
+            res.count('load_events')
+            if e['kind'] != 'broadcast' or e['group'] == 'world' and W > 1 and k < W:
+                return res.violation(f'rank {e["rank"]}: {e["kind"]} on group {e["group"]} while restoring a checkpoint (W={W}, k={k})', case)
             continue
         ev_by.setdefault((e['rank'], e['phase'][1]), []).append(e)
     if W == 1 and any(not e['harness'] for e in run.trace if e['kind'] != 'new_group'):
@@ -173,7 +184,9 @@ def run_case(rng, res, idx, tier):
                 if tot_exp != tot_got:
                     return res.violation(f'step {st}, rank {r}: total sub-group broadcast volume {tot_got}, expected {tot_exp}', case, step=st)
     if W > 1:
-        res.nontrivial.add(stable_hash(W, k, cfg['method'], cfg['prediv'], cfg['sym'], cfg['colocate'], cfg['F'], cfg['I'], cfg['cap'] > 0, cfg['hook']))
+        res.nontrivial.add(stable_hash(W, k, cfg['method'], cfg['prediv'], cfg['sym'], cfg['colocate'], cfg['F'], cfg['I'], cfg['cap'] > 0, cfg['hook'], load_at is not None))
+        if load_at is not None:
+            res.count('histories_with_restore')
     res.count('events', len(run.trace))
     res.add('schedules', run.schedule_hash())
     res.sample(dict(idx=idx, W=W, k=k, steps=nsteps, cfg={kk: cfg[kk] for kk in ('method', 'prediv', 'sym', 'colocate', 'F', 'I', 'cap', 'hook')}))
